@@ -32,6 +32,11 @@ fn logu(lo: f64, hi: f64) -> BoxedStrategy<f64> {
     (lo.log10()..hi.log10()).prop_map(|e| 10f64.powf(e)).boxed()
 }
 
+/// 1, or 1 +- 10^U(-15,-1)
+fn near_one() -> BoxedStrategy<f64> {
+    prop_oneof![1 => Just(1.0f64), 3 => (-15.0..-1.0f64, any::<bool>()).prop_map(|(e, up)| if up { 1. + 10f64.powf(e) } else { 1. - 10f64.powf(e) })].boxed()
+}
+
 fn pair_strat(_: &Ctx) -> BoxedStrategy<PairCase> {
     let cutoff = prop_oneof![1 => Just(None), 3 => (0.5..10.0f64).prop_map(Some)];
     (logu(1e-2, 1e2), logu(1e-2, 1e2), cutoff)
@@ -48,7 +53,9 @@ fn pair_strat(_: &Ctx) -> BoxedStrategy<PairCase> {
             };
             let other = prop_oneof![
                 2 => Just(None),
-                1 => (logu(1e-2, 1e2), logu(1e-2, 1e2), prop_oneof![Just(None), (0.5..10.0f64).prop_map(Some)]).prop_map(|(s, e, c)| Some((s, e, c.map(|c| c * s)))),
+                2 => (logu(1e-2, 1e2), logu(1e-2, 1e2), prop_oneof![Just(None), (0.5..10.0f64).prop_map(Some)]).prop_map(|(s, e, c)| Some((s, e, c.map(|c| c * s)))),
+                // a nearly identical species: sigma and / or epsilon differ by a relative 1e-15 .. 1e-1 (either sign)
+                1 => (near_one(), near_one(), any::<bool>()).prop_map(move |(fs, fe, same_cut)| Some((sigma * fs, epsilon * fe, if same_cut { cutoff_rel.map(|c| c * sigma) } else { cutoff_rel.map(|c| c * sigma * fs) }))),
             ];
             (Just(sigma), Just(epsilon), Just(cutoff_rel.map(|c| c * sigma)), r, 0.0..std::f64::consts::TAU, (-5.0..5.0f64, -5.0..5.0f64), (0.0..std::f64::consts::TAU, -100.0..100.0f64, -100.0..100.0f64, any::<bool>()), other)
         })
